@@ -195,6 +195,22 @@ def probe_portfolio(spec):
                                 mapping=dump_mapping(slp.mapping), out=tables(pf3, slp, r3))
         except Exception as e:
             o['slp'] = {'solve': 'crash', 'error': repr(e)[:300]}
+    if opts.get('inner_standalone'):
+        # the portfolio wrapped by a structured asset is an ordinary Portfolio object: optimised on its own AFTER it was used inside
+        # the structure it must balance all of its nodes (also those that are external nodes of the structure)
+        o['inner'] = []
+        for a_ in portf.assets:
+            if type(a_).__name__ != 'StructuredAsset':
+                continue
+            try:
+                pi_ = a_.portfolio
+                opi = pi_.setup_optim_problem(mk_prices(spec), mk_grid(spec['grid']))
+                ri = opi.optimize()
+                if not isinstance(ri, str):
+                    o['inner'].append({'name': a_.name, 'nodes': list(pi_.nodes.keys()), 'assets': asset_info(pi_), 'T': int(opi.timegrid.T) if hasattr(opi, 'timegrid') and opi.timegrid is not None else int(tg.T),
+                                       'out': tables(pi_, opi, ri)})
+            except Exception as e:
+                o['inner'].append({'name': a_.name, 'error': repr(e)[:200]})
     if opts.get('split'):
         try:
             portf2 = mk_portfolio(spec)
